@@ -49,3 +49,16 @@ package compaction
 //@   invariant[C12] (forall s int :: 0 <= s && s < len(iterators) ==> iterators[s] != nil) && (forall s int, t int :: 0 <= s && s < t && t < len(iterators) ==> dyn(iterators[s]) != dyn(iterators[t])) && (forall s int :: 0 <= s && s < len(iterators) ==> allocated(dyn(iterators[s])))
 //@ loop (*DefaultCompactionExecutor).CompactFiles#3
 //@   invariant[C12] composite.SrcDistinct(mergedIter) && lockstate(mergedIter.mu) == 0 && (mergedIter.valid ==> mergedIter.key != nil) && currentWriter != nil && sstable.WriterInv(currentWriter)
+
+// ---- C02 / C12: the input tables of a compaction are marked obsolete (and then deleted) only after the executor
+// returned without error, i.e. after every output table was finished (written, fsynced, renamed).
+//@ ghost global compactOK bool
+//@ func (*DefaultCompactionCoordinator).runCompactionCycle
+//@   ghost entry: compactOK = false
+//@   ghost after call CompactionExecutor.CompactFiles#1: compactOK = (err == nil)
+//@   check[C02,C12] before call FileTracker.MarkFileObsolete#1: compactOK
+//@   check[C02,C12] before call FileTracker.CleanupObsoleteFiles#1: compactOK
+//@ loop (*DefaultCompactionCoordinator).runCompactionCycle#5
+//@   invariant[C02] compactOK
+//@ loop (*DefaultCompactionCoordinator).runCompactionCycle#6
+//@   invariant[C02] compactOK
